@@ -24,7 +24,7 @@ From SK Require Import lib.Tok lib.LGraph model.C03_Model proof.C03_Spec proof.C
                        proof.C03_PairIdsComplete proof.C03_Wrap proof.C03_DefaultBalance
                        proof.C03_DefaultEnd proof.C03_DefaultWiring
                        model.C03_Order proof.C03_Ord proof.C03_FirstFit proof.C03_OrdEnd
-                       model.C03_Reactor proof.C03_ReactorProof proof.C03_ReactorSpec proof.C03_Capstone proof.C03_LinkDefault.
+                       model.C03_Reactor proof.C03_ReactorProof proof.C03_ReactorSpec proof.C03_Capstone proof.C03_LinkDefault proof.C03_LinkImplicit.
 Import ListNotations.
 Local Open Scope Z_scope.
 
@@ -960,4 +960,22 @@ Theorem C03_its_list_default_end_to_end : forall (inp : rin) (tpl rc : its) (l r
     total_charge (fst (its_decompose g)) = total_charge (snd (its_decompose g)).
 Proof. exact its_list_default_end_to_end. Qed.
 Print Assumptions C03_its_list_default_end_to_end.
+
+(** the property END TO END in the implicit-template mode, forwards and backwards ([invert]), hypotheses on the TEMPLATE
+    (well formed, bonds join its atoms), the SUBSTRATE and the MATCHER'S CONTRACT only: the rule is the template (the
+    inverted template backwards, C03_backward), its left graph the template's reactant (product) side; every graph of
+    its_list is an instance of it, and balanced if the template is *)
+Theorem C03_its_list_implicit_end_to_end : forall (invert : bool) (inp : rin) (tpl : its) (gs : list its),
+  i_rule inp = synrule (if invert then invert_template tpl else tpl) false ->
+  wf_rcb tpl = true -> edges_closedb tpl = true ->
+  wf_hostb (i_host inp) = true ->
+  forallb (call_okm (i_host inp) (fst (its_decompose (if invert then invert_template tpl else tpl)))) (i_calls inp) = true ->
+  spec_its inp = Some gs ->
+  forall g : its, In g gs ->
+    instance_of (i_host inp) (if invert then invert_template tpl else tpl) g /\
+    (balancedb tpl = true ->
+       (forall e : N, elem_count e (fst (its_decompose g)) = elem_count e (snd (its_decompose g))) /\
+       total_charge (fst (its_decompose g)) = total_charge (snd (its_decompose g))).
+Proof. exact its_list_implicit_end_to_end. Qed.
+Print Assumptions C03_its_list_implicit_end_to_end.
 
